@@ -459,7 +459,7 @@ class _GridHooks(Hooks):
         return NotImplemented
 
 
-def integrate_subset_by_value(ctx, n=4):
+def integrate_subset_by_value(ctx, plans=((4, False), (3, True))):
     """integrate_subset interpreted on a grid of n samples, stored in increasing and in decreasing order, with each limit on a sample or strictly between two
     neighbours (every pair of positions, in both orders, and the two limits equal): the value returned must be the integral of the piecewise-linear function
     through the samples between the smaller and the larger limit (0 for equal limits).  True when every case was decided (the verdicts are then recorded)."""
@@ -468,13 +468,13 @@ def integrate_subset_by_value(ctx, n=4):
     fi = ctx.fn(repo.func('utils.integrate', 'integrate_subset'))
     where_ = loc(fi)
     half = Poly.const(Fraction(1, 2))
-    xs = [alg.index_at(sym('x', N), N, Poly.const(k)) for k in range(n)]
-    ys = [alg.index_at(sym('y', N), N, Poly.const(k)) for k in range(n)]
-    # positions of a limit, in the order of increasing abscissa: ('at', j) on sample j, ('in', j) strictly between samples j and j+1; rank on a scale where
-    # sample j has rank 4j and the open interval above it holds ranks 4j+1 (the lower of two limits in it) and 4j+2
-    spots = [('at', j) for j in range(n)] + [('in', j) for j in range(n - 1)]
     bad, ncase = [], 0
-    for decreasing in (False, True):
+    for n, decreasing in plans:
+        xs = [alg.index_at(sym('x', N), N, Poly.const(k)) for k in range(n)]
+        ys = [alg.index_at(sym('y', N), N, Poly.const(k)) for k in range(n)]
+        # positions of a limit, in the order of increasing abscissa: ('at', j) on sample j, ('in', j) strictly between samples j and j+1; rank on a scale where
+        # sample j has rank 4j and the open interval above it holds ranks 4j+1 (the lower of two limits in it) and 4j+2
+        spots = [('at', j) for j in range(n)] + [('in', j) for j in range(n - 1)]
         X = xs[::-1] if decreasing else xs          # samples in the order of increasing abscissa
         Y = ys[::-1] if decreasing else ys
         kr = [4 * j for j in range(n)]
@@ -515,6 +515,20 @@ def integrate_subset_by_value(ctx, n=4):
                         ncase += 1
                         bad.append('grid stored in %s order, first limit %s, second limit %s (samples numbered by increasing abscissa): %s'
                                    % ('decreasing' if decreasing else 'increasing', name(ka, ja), name(kb, jb), str(out.why)[:110]))
+                        continue
+                    # a raise passed on the way is taken as a precondition by the interpreter: here every test has to be decided by the ordering of the case - one
+                    # that still depends on the sample values refuses some filters (finite samples assumed: NaN / infinity tests are false)
+                    refusals = []
+                    for g_ in I.assumed:
+                        if len(g_) > 5 and g_[4] == 'raise-guard' and isinstance(g_[5], Arr) and g_[5].ndim == 0:
+                            tp_ = alg.rebuild(hk.simplify(g_[5].poly), lambda a_: Poly() if a_[0] == 'ind' and a_[1] in ('isnan', 'isinf') else None)
+                            tp_ = hk.simplify(tp_)
+                            if not tp_.is_const():
+                                refusals.append('%s:%s `%s`' % (g_[0].split('/')[-1], g_[1], g_[2][:60]))
+                    if refusals:
+                        ncase += 1
+                        bad.append('grid stored in %s order, first limit %s, second limit %s (samples numbered by increasing abscissa): whether it raises depends on the sample values (%s)'
+                                   % ('decreasing' if decreasing else 'increasing', name(ka, ja), name(kb, jb), refusals[0]))
                         continue
                     if _is_pynum(out):
                         out = scalar(Poly.const(Fraction(out).limit_denominator(10 ** 9)), num(1))
@@ -571,7 +585,7 @@ def integrate_subset_by_value(ctx, n=4):
                     if not knots.equal(got, ref):
                         bad.append('grid stored in %s order, first limit %s, second limit %s (samples numbered by increasing abscissa)%s: returns %s where the integral is %s'
                                    % ('decreasing' if decreasing else 'increasing', name(ka, ja), name(kb, jb), ', the first limit the larger' if ra > rb else '', alg.show(got, 90), alg.show(ref, 90)))
-    ctx.expect(not bad, 'CFG-11b', 'integrate_subset on a grid of %d samples, every position of the two limits, both storage orders' % n, where_,
+    ctx.expect(not bad, 'CFG-11b', 'integrate_subset on grids of %s samples, every position of the two limits' % ' and '.join('%d (%s order)' % (n_, 'decreasing' if d_ else 'increasing') for n_, d_ in plans), where_,
                '%d cases: the integral of the piecewise-linear function through the samples between the smaller and the larger limit (0 for equal limits)' % ncase,
                '%d of %d cases differ, e.g. %s' % (len(bad), ncase, '; '.join(bad[:2])), 'intsub-by-value')
     return True
@@ -849,7 +863,7 @@ def run(ctx):
     # integrate_subset: decided by value on a grid of three (quick tier) or four (thorough tier) samples; the rules that read its layout (hstack([lower, interior, upper]), the bracketing pair handed to
     # interp1d_fast) corroborate an OK verdict and stand in, as suspects, when the interpretation has none
     from ..roundtrip import SuspectCtx, CorroborateCtx
-    sub = CorroborateCtx(ctx, 'decided by value on a grid of a few samples') if integrate_subset_by_value(ctx, 4 if getattr(ctx, 'tier', 'quick') == 'thorough' else 3) else \
+    sub = CorroborateCtx(ctx, 'decided by value on a grid of a few samples') if integrate_subset_by_value(ctx, ((4, False), (4, True), (5, False)) if getattr(ctx, 'tier', 'quick') == 'thorough' else ((4, False), (3, True))) else \
         SuspectCtx(ctx, 'integrate_subset was not decided by value and the rule that reads its layout reports')
     check_integrate_subset(sub)
     check_filter_read(ctx)
